@@ -2330,6 +2330,16 @@ func suiteC20(s *Shard, n int) {
 			for _, f := range monitorMdi(line, size, off, outSize, paths) {
 				s.Fail(f.Clause, f.Case, f.Detail)
 			}
+			if i%5 == 0 && s.Work != "" {
+				// the same icon as an SVG file through ParseFile (viewBox origin chosen so that the offset is `off`)
+				fo := make([]bool, len(paths))
+				for k := range fo {
+					fo[k] = r.Bool()
+				}
+				for _, f := range monitorParseFile(s.Work, s.Index, line, size, off[0]*size/outSize, off[1]*size/outSize, outSize, paths, fo) {
+					s.Fail(f.Clause, f.Case, f.Detail)
+				}
+			}
 			s.Sig("m:" + fmt.Sprint(len(paths), strings.Count(obs, "creg")))
 		}
 	}
